@@ -483,6 +483,7 @@ func (f *httpFetcher) fetch(ctx context.Context, rs []region, retry bool) (multi
 	// Request to the registry
 	f.urlMu.Lock()
 	url := f.url
+	header := f.header
 	f.urlMu.Unlock()
 	verifhook.Point("remote.fetch.afterURL", f, url)
 	req, err := http.NewRequestWithContext(ctx, "GET", url, nil)
@@ -490,7 +491,7 @@ func (f *httpFetcher) fetch(ctx context.Context, rs []region, retry bool) (multi
 		return nil, err
 	}
 	req.Header = http.Header{}
-	maps.Copy(req.Header, f.header)
+	maps.Copy(req.Header, header)
 	var ranges string
 	for _, reg := range requests {
 		ranges += fmt.Sprintf("%d-%d,", reg.b, reg.e)
@@ -557,6 +558,7 @@ func (f *httpFetcher) check() error {
 	}
 	f.urlMu.Lock()
 	url := f.url
+	header := f.header
 	f.urlMu.Unlock()
 	verifhook.Point("remote.check.afterURL", f, url)
 	req, err := http.NewRequestWithContext(ctx, "GET", url, nil)
@@ -564,7 +566,7 @@ func (f *httpFetcher) check() error {
 		return fmt.Errorf("check failed: failed to make request: %w", err)
 	}
 	req.Header = http.Header{}
-	maps.Copy(req.Header, f.header)
+	maps.Copy(req.Header, header)
 	req.Close = false
 	req.Header.Set("Range", "bytes=0-1")
 	res, err := f.tr.RoundTrip(req)
